@@ -479,6 +479,58 @@ impl Ser {
         } else {
             built.node
         };
+        // one case in twenty-five: an attribute or namespace node on its own. Whatever the string API makes of it, the
+        // token streams and the writers make the same of it
+        let abnormal: Vec<Node> = built.flat_all().into_iter().filter(|n| xot.is_attribute_node(*n) || xot.is_namespace_node(*n)).collect();
+        if !abnormal.is_empty() && rng.chance(1, 25) {
+            let t = abnormal[rng.below(abnormal.len())];
+            let tp = TokenSerializeParameters { cdata_section_elements: vec![], unescaped_gt };
+            let sp = Parameters { indentation: None, cdata_section_elements: vec![], declaration: None, doctype: None, unescaped_gt };
+            let r = guard(|| {
+                let s = xot.serialize_xml_string(sp.clone(), t);
+                let mut toks = String::new();
+                for (_n, _o, tk) in xot.tokens(t, tp.clone(), NoopNormalizer) {
+                    if tk.space {
+                        toks.push(' ');
+                    }
+                    toks.push_str(&tk.text);
+                }
+                let mut ptoks = String::new();
+                for (_n, _o, tk) in xot.pretty_tokens(t, tp.clone(), &[], NoopNormalizer) {
+                    for _ in 0..tk.indentation * 2 {
+                        ptoks.push(' ');
+                    }
+                    if tk.space {
+                        ptoks.push(' ');
+                    }
+                    ptoks.push_str(&tk.text);
+                    if tk.newline {
+                        ptoks.push('\n');
+                    }
+                }
+                let ps = xot.serialize_xml_string(Parameters { indentation: Some(Indentation { suppress: vec![] }), ..sp.clone() }, t);
+                let mut cw = ChunkWriter::new(3);
+                let w = xot.serialize_xml_write(sp.clone(), t, &mut cw);
+                let events = xot.outputs(t).count();
+                (s, toks, ps, ptoks, w.is_ok(), cw.buf, events)
+            });
+            match r {
+                Err(p) => ctx.violation("serialising an attribute / namespace node on its own panicked", format!("C16/abnormal-node-target/panic/{}", p.sig()), J::obj().set("tree", a.to_json()).set("panic", J::s(p.short()))),
+                Ok((Ok(s), toks, ps, ptoks, w_ok, wbuf, _events)) => {
+                    if s != toks || !w_ok || wbuf != s.as_bytes() || ps.as_ref().map_or(false, |p| *p != ptoks) {
+                        ctx.violation(
+                            "an attribute / namespace node on its own: tokens, writer and string disagree",
+                            "C16/abnormal-node-target/differs".to_string(),
+                            J::obj().set("tree", a.to_json()).set("what", J::s(format!("string {:?}, tokens {:?}, pretty string {:?}, pretty tokens {:?}, writer ok {} {} bytes", s, toks, ps.ok(), ptoks, w_ok, wbuf.len()))),
+                        );
+                    } else {
+                        ctx.count("attribute_or_namespace_node_targets");
+                    }
+                }
+                Ok((Err(_), ..)) => ctx.count("attribute_or_namespace_node_targets_refused"),
+            }
+            return;
+        }
         let sub = match sub_anode(&a, &built, target) {
             Some(s) => s.clone(),
             None => return,
